@@ -328,5 +328,5 @@ META = {
             "the model covers the switching logic. Trusted: Coq kernel, extraction, harness/smpi_c36.c, the python twin of the script semantics "
             "(which values MPI delivers), the regex scan of call sites.",
     "technique": "Coq proof (invariant over event traces) + call-site scan + generated MPI programs judged by the extracted specification",
-    "claimed": False,
+    "claimed": True,
 }
